@@ -1,6 +1,7 @@
 package props
 
 import (
+	"errors"
 	"bytes"
 	"context"
 	"encoding/json"
@@ -433,7 +434,7 @@ func checkC19ArchDigest(raw json.RawMessage) (ev.Result, error) {
 	path := filepath.Join(dir, "corpus.json")
 	b, _ := json.Marshal(c.Corpus)
 	os.WriteFile(path, b, 0o644)
-	digests := map[string]string{}
+	digests, crashed := map[string]string{}, map[string]string{}
 	for _, name := range []string{"digest", "digest_386"} {
 		bin, err := kchild.Bin(name)
 		if err != nil {
@@ -441,6 +442,13 @@ func checkC19ArchDigest(raw json.RawMessage) (ev.Result, error) {
 		}
 		out, err := exec.Command(bin, path).Output()
 		if err != nil {
+			// a Go process that panics exits with status 2 and says so; anything else (killed, no memory) decides nothing
+			var ee *exec.ExitError
+			if errors.As(err, &ee) && ee.ExitCode() == 2 && (strings.Contains(string(ee.Stderr), "panic: ") || strings.Contains(string(ee.Stderr), "fatal error: ")) &&
+				!strings.Contains(string(ee.Stderr), "out of memory") && !strings.Contains(string(ee.Stderr), "cannot allocate") {
+				crashed[name] = firstLines(string(ee.Stderr), 3)
+				continue
+			}
 			return ev.Result{}, ev.Inconclusivef("%s: %v", name, err)
 		}
 		for _, f := range strings.Fields(string(out)) {
@@ -448,6 +456,12 @@ func checkC19ArchDigest(raw json.RawMessage) (ev.Result, error) {
 				digests[name] = f
 			}
 		}
+	}
+	if len(crashed) == 2 {
+		return ev.Result{}, ev.Inconclusivef("both builds of the helper crash on this corpus: %v", crashed)
+	}
+	for name, msg := range crashed {
+		return ev.Result{}, fmt.Errorf("the same %d policies (fixed syscall tables) compile in one build of the library and crash the other: %s: %s", len(c.Corpus), name, msg)
 	}
 	if digests["digest"] == "" || digests["digest"] != digests["digest_386"] {
 		return ev.Result{}, fmt.Errorf("the same %d policies (fixed syscall tables) compile to different programs in a linux/amd64 and a linux/386 build of the library: %s vs %s", len(c.Corpus), digests["digest"], digests["digest_386"])
@@ -963,4 +977,12 @@ func TestC19NativeOverlay(t *testing.T) {
 			return
 		}
 	}
+}
+
+func firstLines(s string, n int) string {
+	lines := strings.Split(strings.TrimSpace(s), "\n")
+	if len(lines) > n {
+		lines = lines[:n]
+	}
+	return strings.Join(lines, " | ")
 }
